@@ -1,12 +1,13 @@
 (** * C11 — Recursive and transfer operations are exact (pinned statements).
-    partial: create_dir_all is proved exact for a MemoryFS instance (all paths, all states);
-    remove_dir_all, copy_file, move_file, copy_dir and move_dir - within one instance and across
+    partial: create_dir_all and remove_dir_all are proved exact for a MemoryFS instance (all paths,
+    all states, trees of any size and depth); copy_file, move_file, copy_dir and move_dir - within one instance and across
     every ordered pair of instances - are decided by the model-independent contract oracle of the
     correspondence check and by the comparison with the model. *)
 From stdpp Require Import gmap list.
 From Coq Require Import NArith ZArith.
 From VFS Require Import Core.Types Core.Prog Core.Calls Base.MemFS Base.Handles Base.Store Layer.VfsPath
-  Proofs.MemProofs Proofs.MemCalls Proofs.MemPublic Proofs.ConcProofs Proofs.Composite Proofs.ErrPaths Proofs.Leaves.
+  Proofs.MemProofs Proofs.MemCalls Proofs.MemPublic Proofs.ConcProofs Proofs.Composite Proofs.ErrPaths Proofs.Leaves
+  Proofs.WalkProofs Proofs.RemoveAll.
 
 Notation mstate := (gmap (list (list N)) memfile).
 
@@ -35,6 +36,25 @@ Theorem C11_transfer_errors : forall (A : forall b, brep b -> Prop) fuel (v : vf
   leaves A (err_at (fun q => q = p)) (vp_move_dir fuel v p v' p').
 Proof. intros. repeat split; apply transfer_relabelled. Qed.
 
+(** remove_dir_all removes exactly the subtree: on a well-formed MemoryFS of any size, for any
+    directory [p] other than the root (given fuel for the depth of the subtree) it succeeds, the
+    resulting tree is the old one without [p] and everything below it - every other entry is
+    untouched, timestamps and bytes included - and it is well formed *)
+Theorem C11_remove_dir_all_exact : forall hs lg ft fuel (s : mstate) p,
+  wf s -> p <> [] -> is_dir s p -> (forall k, k ∈ desc s p -> length k < length p + fuel) -> 0 < fuel ->
+  exists s', run bhandler (vp_remove_dir_all mv fuel p) (mstore s hs lg ft) = (mstore s' hs lg ft, Ok tt) /\
+             pruned s s' [p] /\ wf s'.
+Proof. exact remove_dir_all_exact. Qed.
+
+(** and on an absent path it succeeds without touching anything *)
+Theorem C11_remove_dir_all_absent : forall hs lg ft fuel (s : mstate) p,
+  s !! p = None -> run bhandler (vp_remove_dir_all mv (Datatypes.S fuel) p) (mstore s hs lg ft) = (mstore s hs lg ft, Ok tt).
+Proof.
+  intros hs lg ft fuel s p Hp. cbn [vp_remove_dir_all]. unfold bind_res at 1.
+  rewrite ProgProofs.run_bind, call_exists, Hp.
+  rewrite bool_decide_eq_false_2 by (intros [x Hx]; discriminate). reflexivity.
+Qed.
+
 Example C11_example :
   exists s', fst (run bhandler (vp_create_dir_all mv [[97%N]; [98%N]; [99%N]]) (mstore mem_new [] [] None)) = mstore s' [] [] None /\
              is_Some (s' !! [[97%N]; [98%N]; [99%N]]) /\ is_Some (s' !! [[97%N]; [98%N]]) /\ s' !! [[98%N]] = None.
@@ -44,3 +64,5 @@ Print Assumptions C11_create_dir_all_exact.
 Print Assumptions C11_create_dir_all_loop.
 Print Assumptions C11_transfer_errors.
 Print Assumptions C11_example.
+Print Assumptions C11_remove_dir_all_exact.
+Print Assumptions C11_remove_dir_all_absent.
